@@ -40,6 +40,9 @@ NewImm(o) ==
 Judge(c, s, h2) ==
   LET o == s.o IN
   IF ~Enabled(o) THEN "operation-not-enabled-in-the-specification"
+  \* the operation itself raised (recorded by the deep-copy histories: depth = nesting depth of the tree on the value stack;
+  \* copy() deep-copies recursively - known finding C13-deep-copy-recursion from about 250 levels on)
+  ELSE IF o.exc # "" THEN o.op \o "-raised-" \o o.exc \o (IF o.depth >= 200 THEN "@deep-value-stack" ELSE "")
   ELSE IF {s.hs[i][1] : i \in DOMAIN s.hs} # DOMAIN h2 THEN "live-handles-differ"
   ELSE IF \E i \in DOMAIN s.hs : s.hs[i][2] # h2[s.hs[i][1]] THEN "replay-used-a-different-history"
   ELSE IF \E i \in DOMAIN s.hs : s.hs[i][3] # s.hs[i][4] THEN "fork-state-differs-from-a-fresh-parser-fed-its-own-history"
